@@ -298,6 +298,7 @@ type runCase struct {
 	ZeroFlags [3]bool // update:ignoreZeroValueField basic / struct / nillable in effect (harness' reading)
 	Update string   // verdict of the update oracle ("" = holds)
 	NonIdent string // memory shared between positions of non-identical types
+	KeyShared string // positions inside map keys of the result that are source memory
 	// observed
 	Panic   string
 	Out     string // Coq term of the result
@@ -316,7 +317,7 @@ type runCase struct {
 }
 
 const driverPrelude = `
-type pr struct{ src map[uintptr]bool; next int; snap bool; styp map[uintptr]reflect.Type; nonident []string }
+type pr struct{ src map[uintptr]bool; next int; snap bool; styp map[uintptr]reflect.Type; nonident []string; keyShared []string }
 
 func tok(v reflect.Value) int64 {
 	switch v.Kind() {
@@ -406,7 +407,7 @@ func (p *pr) show(v reflect.Value, n0 int, path []string, shared *[]string, unde
 		var ents []ent
 		it := v.MapRange()
 		for it.Next() {
-			ks := p.show(it.Key(), n0, nil, nil, true)
+			ks := p.show(it.Key(), n0, append(append([]string{}, path...), "KEY"), &p.keyShared, under || p.src[a])
 			ents = append(ents, ent{ks, "(" + ks + ", " + p.show(it.Value(), n0, append(path, fmt.Sprintf("PKey (%d)", tok(it.Key()))), shared, under || p.src[a]) + ")"})
 		}
 		sort.Slice(ents, func(x, y int) bool { return ents[x].k < ents[y].k })
@@ -501,7 +502,7 @@ func report(w *bufio.Writer, id int, n0 int, srcp, resp interface{}, before stri
 	after := (&pr{src: map[uintptr]bool{}, snap: true}).show(src, 0, nil, nil, true)
 	changed := 0
 	if after != before { changed = 1 }
-	fmt.Fprintf(w, "R\t%d\tOK\t%s\t[%s]\t%d\t%s\t\t%s\n", id, out, strings.Join(shared, "; "), changed, sc(src, res, "", skip), strings.Join(p.nonident, "; "))
+	fmt.Fprintf(w, "R\t%d\tOK\t%s\t[%s]\t%d\t%s\t\t%s\t%s\n", id, out, strings.Join(shared, "; "), changed, sc(src, res, "", skip), strings.Join(p.nonident, "; "), strings.Join(p.keyShared, "; "))
 }
 
 // per-field snapshots of a struct (update methods)
@@ -809,6 +810,9 @@ func buildAndRun(root string, cases []*runCase, race bool) (string, error) {
 		}
 		if len(parts) > 8 {
 			c.NonIdent = parts[8]
+		}
+		if len(parts) > 9 {
+			c.KeyShared = parts[9]
 		}
 	}
 	return "", nil
